@@ -3439,7 +3439,7 @@ class __implementations__:
         return summed
 
     @implements(numpy.prod)
-    def prod(arg: IntoArray, axis: int) -> Array:
+    def prod(arg: IntoArray, axis: Optional[Union[int, Sequence[int]]] = None) -> Array:
         arg = Array.cast(arg)
         if arg.dtype == bool:
             arg = arg.astype(int)
